@@ -95,9 +95,9 @@ Proof.
 Qed.
 
 (* on input without backslashes the escaping is faithful: the reader gets the original back *)
-Lemma esc_faithful d s : ~ In 92 s -> (d = true -> True) -> dec false (esc d false s) = s.
+Lemma esc_faithful d s : ~ In 92 s -> dec false (esc d false s) = s.
 Proof.
-  intros Hn _. induction s as [|c r IH]; simpl; auto.
+  intros Hn. induction s as [|c r IH]; simpl; auto.
   assert (H92 : (c =? 92) = false) by (apply N.eqb_neq; intros ->; apply Hn; now left).
   assert (Hr : ~ In 92 r) by (intros ?; apply Hn; now right).
   destruct (c =? 10) eqn:E10.
